@@ -56,6 +56,9 @@ def canon(text):
     return [(("SourcePath", os.path.basename(l.split("=", 1)[1])) if isinstance(l, str) and l.startswith("SourcePath=") else l) for l in lines]
 
 
+PLACED = {}          # file name -> full path of the last placement (the errors must name the PATH of the offending file)
+
+
 def place(rng, files, root, ndirs):
     """distribute files over search directories and subdirectories, creating them in a random order"""
     dirs = ["d%d" % i for i in range(ndirs)]
@@ -66,6 +69,7 @@ def place(rng, files, root, ndirs):
         d = rng.choice(subs).rstrip("/")
         os.makedirs(os.path.join(root, d), exist_ok=True)
         p = os.path.join(root, d, name)
+        PLACED[name] = p
         if content is None:
             os.makedirs(p)
         elif isinstance(content, tuple):
@@ -151,8 +155,8 @@ def run(ctx):
                     bad = "exit status %s with broken files %s" % (rc2, broken)
                 else:
                     for b in broken:
-                        if not any(b in l and "ERROR" in l for l in errt.split("\n")):
-                            bad = "no error line naming %s" % b
+                        if not any(PLACED[b] in l and "ERROR" in l for l in errt.split("\n")):
+                            bad = "no error line naming the path %s of the failing file" % PLACED[b]
             if bad:
                 ctx.failures.append({"op": "e2e", "base": sorted(S), "extra": {k: (show(v) if isinstance(v, (str, bytes)) else ("<directory>" if v is None else "<symlink to %s>" % v[1])) for k, v in E.items()}, "what": bad, "class": None})
         # a file that cannot be loaded does not stand in for a valid file of the same name found later in the search order
